@@ -3,7 +3,7 @@
 # Confirms a candidate seeded change in a scratch copy of /repo's working tree
 # (suite passes with it, demo fails with it and passes without it), runs the
 # quick check against it, and files it under /verif/seeded/<ID>-<k>/.
-id=$1; k=$2; src=$3; chk=${4:-$id}
+id=$1; k=$2; src=$(realpath $3); chk=${4:-$id}
 cd "$(dirname "$0")/.."
 tmp=$(mktemp -d /tmp/yaql-seed.XXXXXX)
 trap 'rm -rf "$tmp"' EXIT
